@@ -1173,7 +1173,7 @@ var clientMethodInfos = map[string]methodInfo{
 	methodPing:                      newClientMethodInfo(clientSessionMethod((*ClientSession).ping), missingParamsOK),
 	methodListRoots:                 newClientMethodInfo(clientMethod((*Client).listRoots), missingParamsOK),
 	methodCreateMessage:             newClientMethodInfo(clientMethod((*Client).createMessage), 0),
-	methodElicit:                    newClientMethodInfo(clientMethod((*Client).elicit), missingParamsOK),
+	methodElicit:                    newClientMethodInfo(clientMethod((*Client).elicit), 0),
 	notificationCancelled:           newClientMethodInfo(clientSessionMethod((*ClientSession).cancel), notification|missingParamsOK),
 	notificationToolListChanged:     newClientMethodInfo(clientMethod((*Client).callToolChangedHandler), notification|missingParamsOK),
 	notificationPromptListChanged:   newClientMethodInfo(clientMethod((*Client).callPromptChangedHandler), notification|missingParamsOK),
@@ -1554,7 +1554,7 @@ func (cs *ClientSession) callProgressNotificationHandler(ctx context.Context, pa
 
 func (c *Client) callElicitationCompleteHandler(ctx context.Context, req *ElicitationCompleteNotificationRequest) (Result, error) {
 	// Check if there's a pending elicitation waiting for this notification.
-	if cs, ok := req.GetSession().(*ClientSession); ok {
+	if cs, ok := req.GetSession().(*ClientSession); ok && req.Params != nil {
 		cs.pendingElicitationsMu.Lock()
 		if ch, exists := cs.pendingElicitations[req.Params.ElicitationID]; exists {
 			select {
